@@ -62,6 +62,13 @@ prop("C07", True, "sched", MC, "stateless model checking (delay-bounded DFS) of 
      "The C04 histories and the C06 shutdown scenarios evaluated with the ledger: ownership of every fd number, framework calls on closed/foreign descriptors, double close, leaks at the return of Run, unix-socket file removal.",
      ENGINE_NOTE + "Descriptors created by package net are outside the ledger.", "DESIGN.md §5/C07")
 
+prop("C18", True, "sched", "fault_enumeration", "exhaustive fault enumeration (every call index of every I/O-path system-call site x errno menu) on the real engine under the cooperative scheduler",
+     "Two checked echo connections and a liveness probe x {LT,ET} x {small, ring-crossing payloads}: all single faults, all pairs of faults and all single faults combined with one schedule deviation (quick), two schedule deviations (thorough); only the victim may be affected, exactly one OnClose with a non-nil error iff opened, descriptor released, engine keeps serving, retryable errors invisible.",
+     ENGINE_NOTE + "Errno menu per site is an assumption listed in the evidence; eventfd/listener registration faults are not injected.", "DESIGN.md §5/C18")
+prop("C19", True, "sched", MC, "stateless model checking (delay- and deviation-bounded DFS) of the control API against a reference state machine",
+     "Zero Engine handle; sequences of control calls from a 10-call alphabet while running, racing with shutdown (second thread) and after shutdown; Stop(live ctx) nil only when the ledger shows pollers/listeners closed; Stop(cancelled ctx) returns the context error and the shutdown still completes; second Stop harmless; Register delivers exactly one result; Register with an injected epoll_ctl(ADD) failure delivers an error.",
+     ENGINE_NOTE, "DESIGN.md §5/C19")
+
 REASON_WIP = "check under construction in this build phase (machinery not committed yet)"
 for i in range(1, 21):
     id = "C%02d" % i
